@@ -132,12 +132,38 @@ def run(ctx):
 
     # ---------------- C07.b location
     # file: both sides call the same path helper on the id
-    ps = {n.func.attr for n in ast.walk(F(fil, '_save_recording').node) if isinstance(n, ast.Call) and self_attr(n.func) and 'path' in n.func.attr}
-    pg = {n.func.attr for n in ast.walk(F(fil, 'get_recording').node) if isinstance(n, ast.Call) and self_attr(n.func) and 'path' in n.func.attr}
-    ok = len(ps) == 1 and ps == pg
-    cb.instance('file cassette: save and fetch use %s' % sorted(ps | pg), fil.name, ok)
+    # the location written and the location read are the same function of the id: the path expressions handed to open(), written out
+    # through locals and small helpers, agree once the id (save: <recording>.id, fetch: the id parameter) is put in the same place
+    from . import common as _cm07
+    import copy as _copy
+
+    loc_asts = []
+
+    def location(fn, op, id_pred):
+        if not op.args:
+            return None
+        e = _cm07.expand_through_helpers(fil, fn, op.args[0])
+
+        class I(ast.NodeTransformer):
+            def visit_Attribute(self_, n):
+                if id_pred(n):
+                    return ast.Name(id='ID', ctx=ast.Load())
+                self_.generic_visit(n)
+                return n
+
+            def visit_Name(self_, n):
+                return ast.Name(id='ID', ctx=ast.Load()) if id_pred(n) else n
+        loc_asts.append((fn, e))
+        return norm(I().visit(_copy.deepcopy(e)))
+    sv_, gt_ = F(fil, '_save_recording'), F(fil, 'get_recording')
+    rp = sv_.params[1] if len(sv_.params) > 1 else None
+    ip = gt_.params[1] if len(gt_.params) > 1 else None
+    ps = location(sv_, opens_s[0], lambda n: isinstance(n, ast.Attribute) and n.attr == 'id' and isinstance(n.value, ast.Name) and n.value.id == rp) if opens_s else None
+    pg = location(gt_, opens_g[0], lambda n: isinstance(n, ast.Name) and n.id == ip) if opens_g else None
+    ok = ps is not None and ps == pg and 'ID' in ps
+    cb.instance('file cassette: save and fetch open the same function of the id (%s)' % ps, fil.name, ok)
     if not ok:
-        finding('C07.b', 'R-AGREE', F(fil, 'get_recording'), 'file path function', 'save uses %s, fetch uses %s' % (sorted(ps), sorted(pg)))
+        finding('C07.b', 'R-AGREE', F(fil, 'get_recording'), 'file path function', 'save uses %s, fetch uses %s' % (ps, pg))
     # S3: same template + key_prefix on both sides (full and metadata)
     def tmpl_uses(fn):
         out = set()
@@ -164,14 +190,14 @@ def run(ctx):
     if not ok:
         finding('C07.b', 'R-AGREE', F(mem, 'get_recording'), 'in-memory store', 'save stores into %s, fetch reads %s' % (sorted(st_s), sorted(st_g)))
 
-    pf = fil.lookup(sorted(ps)[0]) if ps else None
-    if pf is not None:
-        lossy = [n for n in ast.walk(pf.node) if (isinstance(n, ast.Subscript) and isinstance(n.slice, ast.Slice)) or
+    if loc_asts:
+        pf = loc_asts[0][0]
+        lossy = [n for fn_, e_ in loc_asts for n in ast.walk(e_) if (isinstance(n, ast.Subscript) and isinstance(n.slice, ast.Slice)) or
                  (isinstance(n, ast.Call) and isinstance(n.func, ast.Name) and n.func.id in ('hash',)) or
                  (isinstance(n, ast.Call) and isinstance(n.func, ast.Attribute) and n.func.attr in ('hexdigest', 'digest', 'lower', 'upper', 'casefold'))]
         cb.instance('file cassette: path is an injective function of the id (no truncation / hashing / case folding)', pf.qualname, not lossy)
         for n in lossy[:1]:
-            res.add(Finding('C07', 'C07.b', 'R-AGREE', pf.file, pf.qualname, n.lineno, norm(n)[:100],
+            res.add(Finding('C07', 'C07.b', 'R-AGREE', pf.file, pf.qualname, getattr(n, 'lineno', pf.node.lineno), norm(n)[:100],
                             'the file path is a lossy function of the recording id (`%s`): two ids can share one file, so a later save overwrites an '
                             'earlier recording and an unknown id can return someone else\'s recording' % norm(n)[:80]))
     sv_f = F(fil, '_save_recording')
